@@ -86,6 +86,7 @@ inductive Expr where
   | index (r k : Expr)              -- Indexer, one key
   | slice (r lo hi : Expr)          -- Indexer, sliced
   | group (e : Expr)                -- Group
+  | attr (r : Expr) (a : Str)                   -- Relay that is not called: r.a (instance variable, class variable, property)
   | call (r : Expr) (m : Str) (args : Exprs)    -- FuncCall of Relay: r.m(args)
   | fcall (f : Str) (args : Exprs)              -- FuncCall of Var: f(args) (stub function or stub class)
   | listComp (proj : Expr) (vars : List Str) (src cond : Expr)       -- ListComp, one `for`
@@ -119,14 +120,49 @@ def s_Iterator : Str := ['I', 't', 'e', 'r', 'a', 't', 'o', 'r']
 def findIn (ms : List Method) (c m : Str) : Option Method :=
   ms.find? (fun r => r.cls = c && r.name = m)
 
-/-- `Reflections.resolve(types, name)` for a stub class: the class itself, then `object` (reflections.py:213-293) -/
-def findMethod (c m : Str) : Option Method :=
+def findClass (ct : ClassTable) (c : Str) : Option ClassDecl := ct.find? (fun d => d.name = c)
+
+/-- `c`, its base, the base's base, … (single inheritance; the fuel bounds a cyclic table) -/
+def chainFrom (ct : ClassTable) : Nat → Str → List Str
+  | 0, _ => []
+  | fuel + 1, c =>
+    match findClass ct c with
+    | none => []
+    | some d => c :: (match d.base with | some b => chainFrom ct fuel b | none => [])
+
+def chainOf (ct : ClassTable) (c : Str) : List Str := chainFrom ct (ct.length + 1) c
+
+/-- `Reflections.__resolve_raw` / `__resolve_raw_recursive` for a member of a user class: the class's own scope, then the
+    inheritance chain, nearest first (reflections.py:245-277) -/
+def memberOf (ct : ClassTable) (c a : Str) : Option Member :=
+  (chainOf ct c).findSome? fun e => (findClass ct e).bind fun d => d.members.find? (fun m => m.name = a)
+
+def Member.callable (m : Member) : Bool :=
+  match m.kind with
+  | .method | .property | .classMethod => true
+  | _ => false
+
+/-- a function member of a user class as a stub row: no parameters are recorded (arguments are never checked) -/
+def userMethod (ct : ClassTable) (c m : Str) : Option Method :=
+  match memberOf ct c m with
+  | some mem => if mem.callable then some ⟨c, m, .cls c .nil, .nil, mem.ty⟩ else none
+  | none => none
+
+/-- `Reflections.resolve(types, name)`: a stub class, a user class (with its bases), then `object` (reflections.py:213-293) -/
+def findMethod (ct : ClassTable) (c m : Str) : Option Method :=
   match findIn Dunder.methods c m with
   | some r => some r
-  | none => findIn Dunder.methods s_object m
+  | none =>
+    match userMethod ct c m with
+    | some r => some r
+    | none => findIn Dunder.methods s_object m
 
-def findFunc (f : Str) : Option Func :=
-  Dunder.funcs.find? (fun r => r.name = f)
+/-- a stub function / stub class constructor, or the constructor of a user class (`resolve_constructor`: `__init__` is always
+    found, at the latest on `object`; a constructor returns its class, traits.py:463) -/
+def findFunc (ct : ClassTable) (f : Str) : Option Func :=
+  match Dunder.funcs.find? (fun r => r.name = f) with
+  | some r => some r
+  | none => if (findClass ct f).isSome then some ⟨f, true, .nil, .cls f .nil⟩ else none
 
 /-! ## template substitution (helper/template.py:226-385, `TemplateManipulator`)
 
@@ -283,11 +319,11 @@ def stripNullable : Ty → Ty
   | t => t
 
 /-- `OperationTrait.try_operation` (traits.py:178-225). The `inherits` loop (218-223) cannot match for a stub operand. -/
-def tryOp (l : Ty) (op : BOp) (r : Ty) : Option Ty :=
+def tryOp (ct : ClassTable) (l : Ty) (op : BOp) (r : Ty) : Option Ty :=
   match lookup op.token Dunder.operators with
   | none => none
   | some d =>
-    match findMethod l.className d with
+    match findMethod ct l.className d with
     | none => none
     | some m =>
       if !op.selects then some (returnsOf m l (.cons r .nil))
@@ -299,16 +335,16 @@ def tryOp (l : Ty) (op : BOp) (r : Ty) : Option Ty :=
           if alts.mem r then some (returnsOf m l (.cons r .nil)) else none
 
 /-- one step of `each_binary_operator` (reflections.py:620-640) -/
-def tryStep (l : Ty) (op : BOp) (r : Ty) : Option Ty :=
-  match tryOp l op r with
+def tryStep (ct : ClassTable) (l : Ty) (op : BOp) (r : Ty) : Option Ty :=
+  match tryOp ct l op r with
   | some t => some t
-  | none => tryOp r op l
+  | none => tryOp ct r op l
 
-def foldBin : Ty → List (BOp × Ty) → Except Err Ty
+def foldBin (ct : ClassTable) : Ty → List (BOp × Ty) → Except Err Ty
   | l, [] => .ok l
   | l, (op, r) :: rest =>
-    match tryStep l op r with
-    | some t => foldBin t rest
+    match tryStep ct l op r with
+    | some t => foldBin ct t rest
     | none => .error .opNotAllowed
 
 /-- `{value.types: value for value in values if …}` of `on_list` (reflections.py:667-669):
@@ -384,11 +420,11 @@ def onSlice (r : Ty) (lo hi : Expr) : Ty :=
   | t => t
 
 /-- `IteratorTrait.iterates` (traits.py:318-343) behind `on_for_in` (reflections.py:558-578) -/
-def iterates (t : Ty) : Except Err Ty :=
+def iterates (ct : ClassTable) (t : Ty) : Except Err Ty :=
   let t := stripNullable t
-  let m := match findMethod t.className Dunder.iteratorName with
+  let m := match findMethod ct t.className Dunder.iteratorName with
     | some m => some m
-    | none => findMethod t.className Dunder.iterableName
+    | none => findMethod ct t.className Dunder.iterableName
   match m with
   | none => .error .unresolved
   | some m =>
@@ -411,6 +447,19 @@ def bindVars (vars : List Str) (elem : Ty) : Env :=
   | [x] => [(x, elem)]
   | _ => bindVarsFrom elem.attrs vars 0
 
+/-- `on_relay` (reflections.py:407-433) for an instance receiver: an instance variable, class variable or property of a user
+    class (a property read is typed by its getter's return type); a function symbol is not a value -/
+def onAttr (ct : ClassTable) (tr : Ty) (a : Str) : Except Err Ty :=
+  match stripNullable tr with
+  | .cls c .nil =>
+    (match memberOf ct c a with
+     | some mem =>
+       (match mem.kind with
+        | .field | .classVar | .property => .ok mem.ty
+        | _ => .error .unsupported)
+     | none => if (findIn Dunder.methods s_object a).isSome then .error .unsupported else .error .unresolved)
+  | t => if (findMethod ct t.className a).isSome then .error .unsupported else .error .unresolved
+
 abbrev R (α : Type) := Except Err α × Bool
 
 @[inline] def R.bind {α β : Type} (r : R α) (k : α → Bool → R β) : R β :=
@@ -424,7 +473,7 @@ mutual
 /-- `Reflections.type_of(node)` on an expression node: post-order, children left to right (semantics/procedure.py),
     then the node's own handler. `s` = the session state ("the library's Union symbol carries attributes"): since 401dc97 no
     handler reads or writes it (`C03.session_independent`). -/
-def infer (Γ : Env) : Expr → Bool → R Ty
+def infer (ct : ClassTable) (Γ : Env) : Expr → Bool → R Ty
   | .int _, s => (.ok .int, s)                              -- on_integer
   | .float _, s => (.ok .float, s)                          -- on_float
   | .str _, s => (.ok .str, s)                              -- on_string
@@ -437,78 +486,80 @@ def infer (Γ : Env) : Expr → Bool → R Ty
      | some t => if t = noSuchAttr then (.error .indexErr, s) else (.ok t, s)
      | none => (.error .unresolved, s))
   | .factor _ e, s =>                                       -- on_factor: bool is promoted to int, else the operand's type
-    (infer Γ e s).bind fun t s => if t = .bool then (.ok .int, s) else (.ok t, s)
-  | .not_ e, s => (infer Γ e s).bind fun _ s => (.ok .bool, s)          -- on_not_compare
+    (infer ct Γ e s).bind fun t s => if t = .bool then (.ok .int, s) else (.ok t, s)
+  | .not_ e, s => (infer ct Γ e s).bind fun _ s => (.ok .bool, s)          -- on_not_compare
   | .bin e rest, s =>                                       -- on_sum … on_or_bitwise → each_binary_operator
-    (infer Γ e s).bind fun l s =>
-    (inferChain Γ rest s).bind fun ops s => R.lift (foldBin l ops) s
+    (infer ct Γ e s).bind fun l s =>
+    (inferChain ct Γ rest s).bind fun ops s => R.lift (foldBin ct l ops) s
   | .cmp e rest, s =>                                       -- on_comparison
-    (infer Γ e s).bind fun _ s =>
-    (inferChain Γ rest s).bind fun _ s => (.ok .bool, s)
-  | .and_ es, s => (inferList Γ es s).bind fun _ s => (.ok .bool, s)    -- on_and_compare
-  | .or_ es, s => (inferList Γ es s).bind fun _ s => (.ok .bool, s)     -- on_or_compare
+    (infer ct Γ e s).bind fun _ s =>
+    (inferChain ct Γ rest s).bind fun _ s => (.ok .bool, s)
+  | .and_ es, s => (inferList ct Γ es s).bind fun _ s => (.ok .bool, s)    -- on_and_compare
+  | .or_ es, s => (inferList ct Γ es s).bind fun _ s => (.ok .bool, s)     -- on_or_compare
   | .tern a c b, s =>                                       -- on_ternary_operator
-    (infer Γ a s).bind fun ta s =>
-    (infer Γ c s).bind fun _ s =>
-    (infer Γ b s).bind fun tb s =>
+    (infer ct Γ a s).bind fun ta s =>
+    (infer ct Γ c s).bind fun _ s =>
+    (infer ct Γ b s).bind fun tb s =>
     if ta = tb then (.ok ta, s) else (.ok (.union (.cons ta (.cons tb .nil))), s)
-  | .list es, s => (inferList Γ es s).bind fun ts s => onList ts s      -- on_list
-  | .dict kvs, s => (inferPairs Γ kvs s).bind fun items s => (.ok (onDict items), s)   -- on_pair, on_dict
-  | .tuple es, s => (inferList Γ es s).bind fun ts s => (.ok (.tuple (Tys.ofList ts)), s)   -- on_tuple
+  | .list es, s => (inferList ct Γ es s).bind fun ts s => onList ts s      -- on_list
+  | .dict kvs, s => (inferPairs ct Γ kvs s).bind fun items s => (.ok (onDict items), s)   -- on_pair, on_dict
+  | .tuple es, s => (inferList ct Γ es s).bind fun ts s => (.ok (.tuple (Tys.ofList ts)), s)   -- on_tuple
   | .index r k, s =>                                        -- on_indexer
-    (infer Γ r s).bind fun tr s =>
-    (infer Γ k s).bind fun _ s => R.lift (onIndex (stripNullable tr) k) s
+    (infer ct Γ r s).bind fun tr s =>
+    (infer ct Γ k s).bind fun _ s => R.lift (onIndex (stripNullable tr) k) s
   | .slice r lo hi, s =>                                    -- on_indexer, `node.sliced`
-    (infer Γ r s).bind fun tr s =>
-    (infer Γ lo s).bind fun _ s =>
-    (infer Γ hi s).bind fun _ s => (.ok (onSlice (stripNullable tr) lo hi), s)
-  | .group e, s => infer Γ e s                              -- on_group
+    (infer ct Γ r s).bind fun tr s =>
+    (infer ct Γ lo s).bind fun _ s =>
+    (infer ct Γ hi s).bind fun _ s => (.ok (onSlice (stripNullable tr) lo hi), s)
+  | .group e, s => infer ct Γ e s                              -- on_group
+  | .attr r a, s =>                                         -- on_relay
+    (infer ct Γ r s).bind fun tr s => R.lift (onAttr ct tr a) s
   | .call r m args, s =>                                    -- on_relay (prop_of) then on_func_call
-    (infer Γ r s).bind fun tr s =>
+    (infer ct Γ r s).bind fun tr s =>
     let recv := stripNullable tr
-    match findMethod recv.className m with
+    match findMethod ct recv.className m with
     | none => (.error .unresolved, s)
-    | some row => (inferList Γ args s).bind fun ts s => (.ok (returnsOf row recv (Tys.ofList ts)), s)
+    | some row => (inferList ct Γ args s).bind fun ts s => (.ok (returnsOf row recv (Tys.ofList ts)), s)
   | .fcall f args, s =>                                     -- on_var then on_func_call (class → constructor)
     (match lookup f Γ with
      | some _ => (.error .unsupported, s)
      | none =>
-       match findFunc f with
+       match findFunc ct f with
        | none => (.error .unresolved, s)
-       | some row => (inferList Γ args s).bind fun ts s => (.ok (returnsOfFunc row (Tys.ofList ts)), s))
+       | some row => (inferList ct Γ args s).bind fun ts s => (.ok (returnsOfFunc row (Tys.ofList ts)), s))
   | .listComp proj vars src cond, s =>                      -- on_for_in, on_comp_for, on_list_comp
-    (infer Γ src s).bind fun tsrc s =>
-    match iterates tsrc with
+    (infer ct Γ src s).bind fun tsrc s =>
+    match iterates ct tsrc with
     | .error e => (.error e, s)
     | .ok elem =>
       let Γ' := bindVars vars elem ++ Γ
-      (infer Γ' proj s).bind fun tp s =>
-      (infer Γ' cond s).bind fun _ s => (.ok (.list tp), s)
+      (infer ct Γ' proj s).bind fun tp s =>
+      (infer ct Γ' cond s).bind fun _ s => (.ok (.list tp), s)
   | .dictComp k v vars src cond, s =>                       -- on_dict_comp
-    (infer Γ src s).bind fun tsrc s =>
-    match iterates tsrc with
+    (infer ct Γ src s).bind fun tsrc s =>
+    match iterates ct tsrc with
     | .error e => (.error e, s)
     | .ok elem =>
       let Γ' := bindVars vars elem ++ Γ
-      (infer Γ' k s).bind fun tk s =>
-      (infer Γ' v s).bind fun tv s =>
-      (infer Γ' cond s).bind fun _ s => (.ok (.dict tk tv), s)
-def inferList (Γ : Env) : Exprs → Bool → R (List Ty)
+      (infer ct Γ' k s).bind fun tk s =>
+      (infer ct Γ' v s).bind fun tv s =>
+      (infer ct Γ' cond s).bind fun _ s => (.ok (.dict tk tv), s)
+def inferList (ct : ClassTable) (Γ : Env) : Exprs → Bool → R (List Ty)
   | .nil, s => (.ok [], s)
   | .cons e es, s =>
-    (infer Γ e s).bind fun t s =>
-    (inferList Γ es s).bind fun ts s => (.ok (t :: ts), s)
-def inferChain (Γ : Env) : Chain → Bool → R (List (BOp × Ty))
+    (infer ct Γ e s).bind fun t s =>
+    (inferList ct Γ es s).bind fun ts s => (.ok (t :: ts), s)
+def inferChain (ct : ClassTable) (Γ : Env) : Chain → Bool → R (List (BOp × Ty))
   | .nil, s => (.ok [], s)
   | .cons op e rest, s =>
-    (infer Γ e s).bind fun t s =>
-    (inferChain Γ rest s).bind fun ts s => (.ok ((op, t) :: ts), s)
-def inferPairs (Γ : Env) : Pairs → Bool → R (List (Ty × Ty))
+    (infer ct Γ e s).bind fun t s =>
+    (inferChain ct Γ rest s).bind fun ts s => (.ok ((op, t) :: ts), s)
+def inferPairs (ct : ClassTable) (Γ : Env) : Pairs → Bool → R (List (Ty × Ty))
   | .nil, s => (.ok [], s)
   | .cons k v rest, s =>
-    (infer Γ k s).bind fun tk s =>
-    (infer Γ v s).bind fun tv s =>
-    (inferPairs Γ rest s).bind fun ts s => (.ok ((tk, tv) :: ts), s)
+    (infer ct Γ k s).bind fun tk s =>
+    (infer ct Γ v s).bind fun tv s =>
+    (inferPairs ct Γ rest s).bind fun ts s => (.ok ((tk, tv) :: ts), s)
 end
 
 end Tranp.Infer
